@@ -247,7 +247,8 @@ def func_fit(x, y, ncoeff, invvar=None, function_name='legendre', ia=None,
         if nparams > 1:
             # beta = np.dot(ysub * (invvar > 0), finalarr.T)
             beta = np.dot(ysub * invvar, finalarr.T)
-            assert beta.dtype == x.dtype
+            # Same precision as the input; byte order may differ (FITS data).
+            assert beta.dtype.newbyteorder('=') == x.dtype.newbyteorder('=')
             # uu,ww,vv = np.linalg.svd(alpha, full_matrices=False)
             res[nonfix] = np.linalg.solve(alpha, beta)
         else:
